@@ -141,6 +141,7 @@ def raw_nsamples(lib):
 
 
 def raw_time(lib):
+    lib.engineexport_get_time.restype = ctypes.c_double      # (per CDLL object: the engine under test may hold another handle of the same library)
     return float(lib.engineexport_get_time())
 
 
